@@ -14,7 +14,7 @@
 #define REM(p)   (OBJSZ(p) - (size_t)OFF(p))
 #define UC(c)    ((int)((c) & 0xff))
 
-#define VERIF_TRY(i) if (verif_str[i].obj && __CPROVER_same_object(s, verif_str[i].obj) && (size_t)OFF(s) <= verif_str[i].len) { *out = verif_str[i].len - (size_t)OFF(s); return 1; }
+#define VERIF_TRY(i) if (verif_str[i].obj && __CPROVER_same_object(s, verif_str[i].obj) && OFF(s) >= OFF(verif_str[i].obj) && (size_t)(OFF(s) - OFF(verif_str[i].obj)) <= verif_str[i].len && verif_str[i].obj[verif_str[i].len] == 0 && (verif_str[i].len == 0 || verif_str[i].obj[0] != 0)) { *out = verif_str[i].len - (size_t)(OFF(s) - OFF(verif_str[i].obj)); return 1; }
 static _Bool verif_known_len(const char *s, size_t *out){
   VERIF_TRY(0) VERIF_TRY(1) VERIF_TRY(2) VERIF_TRY(3) VERIF_TRY(4) VERIF_TRY(5) VERIF_TRY(6) VERIF_TRY(7)
   return 0;
@@ -63,6 +63,7 @@ char *strncpy(char *d, const char *s, size_t n){
   if (sl < n) d[sl] = 0;
   return d;
 }
+#ifndef VERIF_CONTENT_STRCMP
 int strcmp(const char *a, const char *b){
   __CPROVER_assert(__CPROVER_r_ok(a, 1) && __CPROVER_r_ok(b, 1), "strcmp: arguments readable");
   if (b[0] == 0) return UC(a[0]);
@@ -70,6 +71,10 @@ int strcmp(const char *a, const char *b){
   if (a[0] != b[0]) return UC(a[0]) - UC(b[0]);
   return nondet_int();
 }
+#else
+/* content-level strcmp for runs whose operands are concrete registry literals */
+int strcmp(const char *a, const char *b){ size_t i = 0; while (a[i] != 0 && a[i] == b[i]) i++; return UC(a[i]) - UC(b[i]); }
+#endif
 int strncmp(const char *a, const char *b, size_t n){
   if (n == 0) return 0;
   __CPROVER_assert(__CPROVER_r_ok(a, 1) && __CPROVER_r_ok(b, 1), "strncmp: arguments readable");
@@ -132,25 +137,46 @@ char *strtok_r(char *str, const char *delim, char **save){
 int atoi(const char *s){ (void)strlen(s); return nondet_int(); }
 long atol(const char *s){ (void)strlen(s); return nondet_long(); }
 
-/* snprintf, size level: POSIX — returns the length the full output would have; writes
-   min(ret, n-1) bytes and a NUL.  Exact length for "%s" and for formats without arguments. */
+/* snprintf, size level: POSIX — returns the length the full output would have; writes min(ret, n-1) bytes and a NUL.
+   The (literal, concrete) format is walked to bound that length: %s is exact (strlen of the argument), %.*s is
+   min(strlen, precision), integer conversions lie between 1 and their maximal width, literal bytes count 1. */
+int verif_snprintf_truncated;        /* ghost: some call could not store its whole output */
+int verif_snprintf_register;         /* harness opt-in: the result buffer is entered into the known-length table */
+void verif_set_string(const char *p, size_t len){
+  for (int i = 0; i < VERIF_NSTR; i++) if (i < verif_nstr && verif_str[i].obj && __CPROVER_same_object(verif_str[i].obj, p)) { verif_str[i].obj = p; verif_str[i].len = len; return; }
+  if (verif_nstr < VERIF_NSTR) { verif_str[verif_nstr].obj = p; verif_str[verif_nstr].len = len; verif_nstr++; }
+}
 int verif_snprintf_core(char *buf, size_t n, const char *fmt, int nargs, verif_arg_t a0, verif_arg_t a1, verif_arg_t a2, verif_arg_t a3, verif_arg_t a4){
   __CPROVER_assert(n == 0 || __CPROVER_w_ok(buf, n), "snprintf: size argument does not exceed the destination");
-  size_t fl = strlen(fmt);
-  size_t full;
-  if (a0.kind == 1) (void)strlen(a0.s);
-  if (a1.kind == 1) (void)strlen(a1.s);
-  if (a2.kind == 1) (void)strlen(a2.s);
-  if (a3.kind == 1) (void)strlen(a3.s);
-  if (a4.kind == 1) (void)strlen(a4.s);
-  if (nargs == 0) full = fl;
-  else if (nargs == 1 && a0.kind == 1 && fmt[0] == '%' && fmt[1] == 's' && fmt[2] == 0) full = strlen(a0.s);
-  else { full = nondet_size_t(); }
-  __CPROVER_assume(full <= INT_MAX);
+  verif_arg_t a[5]; a[0] = a0; a[1] = a1; a[2] = a2; a[3] = a3; a[4] = a4;
+  size_t lo = 0, hi = 0; int ai = 0;
+  for (size_t i = 0; fmt[i] != 0; i++) {
+    if (fmt[i] != '%') { lo++; hi++; continue; }
+    i++;
+    if (fmt[i] == '%') { lo++; hi++; continue; }
+    size_t width = 0; long prec = -1;
+    if (fmt[i] == '0') i++;
+    while (fmt[i] >= '1' && fmt[i] <= '9') { width = width * 10 + (size_t)(fmt[i] - '0'); i++; }
+    if (fmt[i] == '.' && fmt[i + 1] == '*') { __CPROVER_assert(ai < nargs, "snprintf: argument for '*'"); prec = (long)a[ai].i; ai++; i += 2; }
+    int longs = 0; while (fmt[i] == 'l' || fmt[i] == 'z') { longs++; i++; }
+    __CPROVER_assert(ai < nargs && ai < 5, "snprintf: an argument exists for every conversion");
+    if (fmt[i] == 's') {
+      __CPROVER_assert(a[ai].kind == 1, "snprintf: %s gets a string");
+      size_t l = strlen(a[ai].s);
+      if (prec >= 0 && (size_t)prec < l) l = (size_t)prec;
+      lo += l; hi += l;
+    } else if (fmt[i] == 'c') { lo++; hi++; }
+    else { size_t mx = longs ? 20 : 11; lo += width > 1 ? width : 1; hi += width > mx ? width : mx; }
+    ai++;
+  }
+  size_t full = nondet_size_t();
+  __CPROVER_assume(full >= lo && full <= hi && full <= INT_MAX);
   if (n > 0) {
     size_t w = full < n ? full : n - 1;
+    if (full >= n) verif_snprintf_truncated = 1;
     __CPROVER_havoc_slice(buf, n);
     buf[w] = 0;
-  }
+    if (verif_snprintf_register) { if (w > 0) __CPROVER_assume(buf[0] != 0); verif_set_string(buf, w); }
+  } else verif_snprintf_truncated = 1;
   return (int)full;
 }
